@@ -430,7 +430,8 @@ func check(id, tier string) int {
 		workers = total
 	}
 	// Contiguous index ranges, one process per range.
-	outs := make([]*batchOut, workers)
+	var outs []*batchOut
+	var outsMu sync.Mutex
 	errs := make([]error, workers)
 	logs := make([]string, workers)
 	var wg sync.WaitGroup
@@ -447,14 +448,41 @@ func check(id, tier string) int {
 		wg.Add(1)
 		go func(w, from, to int) {
 			defer wg.Done()
-			j := &job{Mode: "batch", Prop: id, Tier: tier, Base: base, From: from, To: to, CapSec: capSec}
-			if w == 0 {
-				j.Samples = 3
-			}
-			o := &batchOut{}
-			logs[w], errs[w] = runWorker(spec, j, time.Duration(capSec+180)*time.Second, o)
-			if errs[w] == nil {
-				outs[w] = o
+			for from < to {
+				j := &job{Mode: "batch", Prop: id, Tier: tier, Base: base, From: from, To: to, CapSec: capSec}
+				if w == 0 {
+					j.Samples = 3
+				}
+				o := &batchOut{}
+				logs[w], errs[w] = runWorker(spec, j, time.Duration(capSec+180)*time.Second, o)
+				if errs[w] != nil {
+					return
+				}
+				if o.Hang == nil {
+					outsMu.Lock()
+					outs = append(outs, o)
+					outsMu.Unlock()
+					return
+				}
+				// A run made no progress for the monitor's span. Hung, or only
+				// starved on an overloaded machine? Alone it tells: if it
+				// finishes there, its results count and the batch goes on
+				// behind it; if not, the hang is judged below (confirmHang).
+				alone := &batchOut{}
+				j1 := &job{Mode: "batch", Prop: id, Tier: tier, Base: base, From: o.Hang.Index, To: o.Hang.Index + 1, HangSec: o.Hang.Sec}
+				if _, err := runWorker(spec, j1, time.Duration(o.Hang.Sec+60)*time.Second, alone); err != nil || alone.Hang != nil {
+					outsMu.Lock()
+					outs = append(outs, o)
+					outsMu.Unlock()
+					return
+				}
+				fmt.Fprintf(os.Stderr, "verif: note: run %d (seed %d) made no progress for %ds inside its batch but finishes when run alone (overloaded machine); going on behind it\n", o.Hang.Index, o.Hang.Seed, o.Hang.Sec)
+				from = o.Hang.Index + 1
+				o.Hang = nil
+				o.Planned = o.Executed
+				outsMu.Lock()
+				outs = append(outs, o, alone)
+				outsMu.Unlock()
 			}
 		}(w, from, to)
 	}
